@@ -417,7 +417,8 @@ def catalogue_cases(tier):
     names = ['sim', 'restart_run', 'my-run.v2', 'rl_it_3D', 'Checkpoints_available']
     layouts = list(itertools.product(('onefile', 'proc'), ('ungrouped', 'grouped')))
     patterns = [[(0, [0, 2, 4], 0)], [(0, [0, 4, 8], 0), (1, [8, 12], 1)], [(0, [6], 0), (1, [6, 9, 12], 1), (2, [12], 2)],
-                [(0, [0, 4, 8, 10], 0), (1, [10, 14], 1)]]
+                [(0, [0, 4, 8, 10], 0), (1, [10, 14], 1)],
+                [(0, [0, 4, 8], 0), (1, [10, 12, 14], 1), (2, [16, 18, 20], 2), (3, [22, 24], 3)]]
     cases = []
     for i, (nm, lay) in enumerate(itertools.product(names, layouts)):
         cases.append((nm, lay, patterns[i % len(patterns)]))
